@@ -26,7 +26,7 @@ func TestC19(t *testing.T) {
 		simkit.Guard(func() {
 			phantoms := 0
 			runHonest(t, runCfg{prop: "C19", opts: chainsim.WorldOpts{Nodes: [2]int{3, 6}, Validators: [2]int{4, 9}, Byzantine: simkit.Bool(t, "byzantine"), ValidatorChanges: true, NetFaults: true, RPCFaults: true, SmallCache: true, StandardThresholds: true},
-				faults: chainsim.FaultPlan{Partitions: true, Crashes: true, Skew: false, LongOutage: true}, blocks: [2]int{15, 90},
+				faults: chainsim.FaultPlan{Partitions: true, Crashes: true, Skew: true, LongOutage: true}, blocks: [2]int{15, 90},
 				tail: func(w *chainsim.World, m *chainsim.Monitor, adv *chainsim.Adversary) { quietTail(t, w, m, adv) }},
 				func(w *chainsim.World, m *chainsim.Monitor) {
 					if simkit.Chance(t, "phantoms", 1, 3) {
@@ -56,6 +56,9 @@ func quietTail(t *rapid.T, w *chainsim.World, m *chainsim.Monitor, adv *chainsim
 	}
 	if adv != nil {
 		adv.Enabled = false
+	}
+	for _, n := range s.Nodes {
+		n.Skew = 0 // clocks are back in sync: a clock that is most of a slot behind keeps rejecting fresh blocks as future blocks
 	}
 	up := 0
 	for _, n := range s.Nodes {
@@ -91,6 +94,25 @@ func quietTail(t *rapid.T, w *chainsim.World, m *chainsim.Monitor, adv *chainsim
 	if ref == nil {
 		return
 	}
+	// nodes whose finalized blocks conflict cannot meet again, whatever the sync does: that is a safety failure (C01's
+	// business, or a run outside the safety theorem's premises), not a sync failure
+	for _, a := range s.Nodes {
+		for _, b := range s.Nodes {
+			if !a.Up || !b.Up || a.IsAdversary || b.IsAdversary || a.ID >= b.ID {
+				continue
+			}
+			f := a.Finalized()
+			if bf := b.Finalized(); bf < f {
+				f = bf
+			}
+			ha, e1 := a.Chain.DataAccess().GetBlockHeaderByHeight(f)
+			hb, e2 := b.Chain.DataAccess().GetBlockHeaderByHeight(f)
+			if e1 == nil && e2 == nil && !bytes.Equal(ha.ID, hb.ID) {
+				simkit.Probe("c19_tail_conflicting_finality_no_verdict")
+				return
+			}
+		}
+	}
 	simkit.Probe("c19_convergence_checked")
 	if maxH == minH {
 		simkit.Probe("c19_all_tips_at_same_height")
@@ -116,6 +138,43 @@ func quietTail(t *rapid.T, w *chainsim.World, m *chainsim.Monitor, adv *chainsim
 		}
 	}
 	if bad != "" {
+		// The common-block search of a block sync looks at 3 x 9 heights spaced one round (= the number of current BFT
+		// validators) apart below the tip. A fork deeper than that is never found and the sync gives up for good: a
+		// limit of the protocol's parameters (with 101 validators: about 2700 blocks), visible here only because a drawn
+		// validator set can have one or two members. No verdict on such runs.
+		for _, a := range s.Nodes {
+			for _, b := range s.Nodes {
+				if !a.Up || !b.Up || a.IsAdversary || b.IsAdversary || a.ID == b.ID {
+					continue
+				}
+				ta, tb := m.Tree.ByID[string(a.Tip().ID)], m.Tree.ByID[string(b.Tip().ID)]
+				if ta == nil || tb == nil {
+					continue
+				}
+				x, y := ta, tb
+				for x != nil && y != nil && x != y {
+					if x.Header.Height >= y.Header.Height {
+						x = x.Parent
+					} else {
+						y = y.Parent
+					}
+				}
+				if x == nil || y == nil {
+					continue
+				}
+				depth := int(a.Tip().Height - x.Header.Height)
+				round := len(ta.BFT.ActiveValidators())
+				if depth > 26*round-round {
+					simkit.Probe("c19_tail_fork_deeper_than_common_block_search_no_verdict")
+					return
+				}
+			}
+		}
+		for _, n := range s.Nodes {
+			if n.Up && !n.IsAdversary {
+				bad += fmt.Sprintf(" [%s log: %v]", n.Name, n.Log.Tail(3))
+			}
+		}
 		m.Report("C19", "convergence", "after-faults-stop", fmt.Sprintf("%d block slots after the last fault (network healed, bans lifted, all RPCs reliable) the honest nodes are not on one chain: %s | at the start of the quiet phase: %s", int(budget/w.BlockTime), bad, tipsBefore))
 	}
 }
